@@ -145,6 +145,9 @@ var h08Lists = [][]string{
 	{"abc", "ÿes", "Ÿes"},
 	{"µm", "Μm"},
 	{"new York", "New York", "o'Neil", "O'Neil"},
+	{"ალფა", "ბეტა"},            // Georgian: lower-case letters that have no title-case form
+	{"alpha", "ßeta", "ŉu"},     // lower-case first letters, two of them without a title-case form
+	{"alpha", "bravo", "bravo"}, // sorted, lower case, with a repeated entry
 }
 
 // H08: wordlist entropy is exact and depends on the recipe alone.
